@@ -28,8 +28,9 @@ open Gallia Gallia.Framing Gallia.Loss
 open Gallia.Client (Ev Limits)
 
 structure SProto (Q : Type) extends Proto Q where
-  /-- queue and buffered incomplete tail after more bytes arrived -/
-  push : Q → Bytes → Bytes → Q × Bytes
+  /-- queue and buffered incomplete tail after more bytes arrived; `true` = the reader task died on them (DoIP: a frame
+      that does not unpack) -/
+  push : Q → Bytes → Bytes → Q × Bytes × Bool
 
 inductive PEv
   | deliver (b : Bytes)
@@ -64,6 +65,7 @@ structure Sys (Q : Type) where
   nconn : Nat                        -- connections accepted so far
   wire : List (Nat × Nat × Bytes)    -- (connection index, time, request) of every request written
   refusals : Nat                     -- connection attempts refused so far
+  ties : Nat                         -- deadlines that fell exactly on the time of a peer event (order not modelled)
 
 variable {Q : Type}
 
@@ -74,11 +76,11 @@ def PConn.fresh (P : SProto Q) (idx : Nat) : PConn Q :=
   { idx, q := P.parse [], rem := [], ended := none, closed := false }
 
 def Sys.init (P : SProto Q) : Sys Q :=
-  { now := 0, up := true, serve := none, raOn := true, conn := PConn.fresh P 0, nconn := 1, wire := [], refusals := 0 }
+  { now := 0, up := true, serve := none, raOn := true, conn := PConn.fresh P 0, nconn := 1, wire := [], refusals := 0, ties := 0 }
 
 def PConn.feed (P : SProto Q) (c : PConn Q) (b : Bytes) : PConn Q :=
   let r := P.push c.q c.rem b
-  { c with q := r.1, rem := r.2 }
+  { c with q := r.1, rem := r.2.1, closed := c.closed || r.2.2, ended := if r.2.2 then some .eof else c.ended }
 
 def applyPeer (P : SProto Q) (s : Sys Q) : PEv → Sys Q
   | .deliver b => if s.conn.live then { s with conn := s.conn.feed P b } else s
@@ -109,7 +111,9 @@ def await (P : SProto Q) (ready : Sys Q → Bool) (dl : Option Nat) (s : Sys Q) 
       | .peer (.advance ms) =>
         (match dl with
           | some t =>
-            if t ≤ s.now + ms then (.timeout, { s with now := max s.now t }, .peer (.advance (s.now + ms - max s.now t)) :: es)
+            if t ≤ s.now + ms then
+              (.timeout, { s with now := max s.now t, ties := if t = s.now + ms then s.ties + 1 else s.ties },
+               .peer (.advance (s.now + ms - max s.now t)) :: es)
             else await P ready dl { s with now := s.now + ms } es
           | none => await P ready dl { s with now := s.now + ms } es)
       | .peer pe => await P ready dl (applyPeer P s pe) es
@@ -223,11 +227,13 @@ def doipPoll (P : SProto Q) (wend : Nat) : Nat → Sys Q → List SEv → RcRes 
   | fuel+1, s, es =>
     if wend ≤ s.now then (.timedOut, s, es)
     else if s.up then
+      let old := s.conn
       let s := accept P s
       if s.raOn then (.ok, s, es)
       else
+        -- the routing activation request is not answered: the new connection is given up, the transport keeps the old one
         let r := await P (fun x => !x.conn.live) (some (min (s.now + Doip.raTimeoutMs) wend)) s es
-        let s1 := closeConn r.2.1
+        let s1 := { r.2.1 with conn := old }
         if wend ≤ s1.now then (.timedOut, s1, r.2.2)
         else
           let r2 := await P (fun _ => false) (some (min (s1.now + pollStep) wend)) s1 r.2.2
@@ -350,23 +356,27 @@ def run (P : SProto Q) (cls : Bytes → Ev) (c : CCfg) : Nat → Sys Q → List 
       run P cls c fuel r.2.1 r.2.2 (obs ++ [.rc r.1 s.now r.2.1.now r.2.1.nconn])
     | .request d tmo =>
       let r := request P cls c d tmo s es
-      run P cls c fuel r.2.1 r.2.2 (obs ++ [.req r.1 s.now r.2.1.now r.2.1.nconn])
+      let obs := obs ++ [.req r.1 s.now r.2.1.now r.2.1.nconn]
+      if r.1 = .blocked then (r.2.1, obs)      -- the only client task never returns
+      else run P cls c fuel r.2.1 r.2.2 obs
 
 /-! ### the three protocols -/
 
 def linesS : SProto Bytes :=
-  { linesProto with push := fun q _ b => (q ++ b, []) }
+  { linesProto with push := fun q _ b => (q ++ b, [], false) }
 
 def doipS (cfg : Doip.Cfg) : SProto (List Doip.Frame) :=
   { doipProto cfg with
     push := fun q rem b =>
       let r := parseAll Doip.doipCutter (rem ++ b)
-      (q ++ (r.1.map Doip.classify).filterMap (fun | .q f => some f | _ => none), r.2) }
+      let its := r.1.map Doip.classify
+      let good := its.takeWhile (fun i => !i.isFatal)
+      (q ++ good.filterMap (fun | .q f => some f | _ => none), r.2, its.any Doip.Item.isFatal) }
 
 def hsfzS (cfg : Hsfz.Cfg) : SProto (List Hsfz.Item) :=
   { hsfzProto cfg with
     push := fun q rem b =>
       let r := parseAll Hsfz.hsfzCutter (rem ++ b)
-      (q ++ Hsfz.items r.1, r.2) }
+      (q ++ Hsfz.items r.1, r.2, false) }
 
 end Gallia.LossSys
